@@ -316,6 +316,21 @@ POLY_OUTSIDE = ("which cells are returned (needs every cell centre: trig; cellTo
 GEO_STUBS = {"h3Index": ["cellToLatLng", "cellToBoundary", "latLngToCell"], "polyfill": ["cellToBBox"], "bbox": ["bboxHexEstimate"], "algos": ["gridDisk", "_getEdgeHexagons"], "polygon": ["pointInsidePolygon"]}
 
 
+ITER_STUBS = {"h3Index": ["cellToLatLng", "cellToBoundary", "latLngToCell"], "polyfill": ["cellToBBox"], "polygon": ["pointInsidePolygon", "cellBoundaryInsidePolygon", "cellBoundaryCrossesPolygon"], "bbox": ["bboxOverlapsBBox", "bboxContainsBBox", "bboxContains"]}
+
+
+def iter_glue_jobs():
+    js = []
+    for (cres, tres, t) in ((0, 0, "quick"), (0, 1, "quick"), (1, 1, "quick"), (2, 3, "quick"), (3, 3, "thorough"), (5, 6, "thorough"), (14, 15, "thorough"), (15, 15, "thorough")):
+        us = {"iterStepPolygonCompact.0": 6, "nextCell.0": tres + 2, "ref_next.0": 17, "idx_of.0": 5, "id_of.0": 5}
+        for k in range(8):
+            us["harness.%d" % k] = 40
+        j = J("itergl_c%d_t%d" % (cres, tres), "C07_itergl.c", ["-DCRES=%d" % cres, "-DTRES=%d" % tres], unwind=17, us=us, stubs=ITER_STUBS, est=60, mem="M", tier=t, timeout=1800, witness_expect=["emits", "exhausted"],
+              bound="one iterator step from any valid cell of res %d, target res %d, all 4 modes, <= 4 cells examined, any predicate answers" % (cres, tres))
+        js += with_witness(j, tier=t) if (cres, tres) == (0, 1) else [j]
+    return js
+
+
 @prop("C07",
       functions=["nextCell", "baseCellNumToCell", "bboxContains", "bboxOverlapsBBox", "bboxContainsBBox", "bboxNormalization", "normalizeLng", "bboxIsTransmeridian", "bboxFromGeoLoop", "validatePolygonFlags", "_iterInitPolygonCompact", "iterStepPolygonCompact", "polygonToCellsExperimental", "maxPolygonToCellsSizeExperimental", "polygonToCells", "maxPolygonToCellsSize"],
       bounds={"quick": "nextCell: all valid cells of res 0-8,15; bbox algebra: all doubles in range under the representation invariant; bboxFromGeoLoop: all loops of 3 vertices; flags: all 2^32 flag words x all int resolutions; empty polygon: all modes x resolutions",
@@ -333,6 +348,7 @@ def c07(tier):
     js += with_witness(J("bboxloop_3", "C07_poly.c", ["-DBBOXLOOP", "-DNV=3"], unwind=5, est=30, bound="all loops of 3 in-range vertices"))
     js += [J("bboxloop_4", "C07_poly.c", ["-DBBOXLOOP", "-DNV=4"], unwind=6, est=60, tier="thorough", bound="all loops of 4 in-range vertices")]
     js += with_witness(J("polyglue", "C07_polyglue.c", [], unwind=5, est=10, stubs={"polygon": ["pointInsideGeoLoop", "cellBoundaryCrossesGeoLoop", "bboxFromGeoLoop"]}, bound="outer loop + 0-2 holes, any loop-level results"))
+    js += iter_glue_jobs()
     js += with_witness(J("flags", "C07_poly.c", ["-DFLAGS"], unwind=3, est=10, stubs=GEO_STUBS, bound="all 2^32 flag words x all int resolutions"))
     js += with_witness(J("empty", "C07_poly.c", ["-DEMPTY"], unwind=5, est=10, stubs=GEO_STUBS, bound="all valid modes x resolutions"))
     return js
@@ -350,6 +366,7 @@ def c15(tier):
     js += with_witness(J("capacity_4", "C15_bound.c", ["-DNSEQ=4"], unwind=8, est=10, stubs={"polyfill": ["iterInitPolygon", "iterStepPolygon", "iterDestroyPolygon"]}, bound="sequences <= 4 cells"))
     js += [J("capacity_6", "C15_bound.c", ["-DNSEQ=6"], unwind=10, est=20, stubs={"polyfill": ["iterInitPolygon", "iterStepPolygon", "iterDestroyPolygon"]}, bound="sequences <= 6 cells")]
     js += with_witness(J("polyglue", "C07_polyglue.c", [], unwind=5, est=10, stubs={"polygon": ["pointInsideGeoLoop", "cellBoundaryCrossesGeoLoop", "bboxFromGeoLoop"]}, bound="outer loop + 0-2 holes, any loop-level results"))
+    js += iter_glue_jobs()
     js += with_witness(J("flags", "C07_poly.c", ["-DFLAGS"], unwind=3, est=10, stubs=GEO_STUBS, bound="all 2^32 flag words x all int resolutions"))
     js += with_witness(J("bbox_algebra", "C07_poly.c", ["-DBBOX"], unwind=2, est=30, bound="all in-range doubles"))
     return js
